@@ -326,6 +326,52 @@ class TrackedArray(np.ndarray):
         self._dirty_hash = True
         return super(self.__class__, self).__setslice__(*args, **kwargs)
 
+    def __setstate__(self, *args, **kwargs):
+        # replaces the whole buffer, i.e. when unpickling
+        self._dirty_hash = True
+        return super(self.__class__, self).__setstate__(*args, **kwargs)
+
+    # the attributes below can be assigned to, which changes the
+    # bytes (or how they are interpreted) without calling a method
+
+    @property
+    def flat(self):
+        # the returned iterator can be written through
+        self._dirty_hash = True
+        return np.ndarray.flat.__get__(self)
+
+    @flat.setter
+    def flat(self, value):
+        self._dirty_hash = True
+        np.ndarray.flat.__set__(self, value)
+
+    @property
+    def real(self):
+        return np.ndarray.real.__get__(self)
+
+    @real.setter
+    def real(self, value):
+        self._dirty_hash = True
+        np.ndarray.real.__set__(self, value)
+
+    @property
+    def imag(self):
+        return np.ndarray.imag.__get__(self)
+
+    @imag.setter
+    def imag(self, value):
+        self._dirty_hash = True
+        np.ndarray.imag.__set__(self, value)
+
+    @property
+    def strides(self):
+        return np.ndarray.strides.__get__(self)
+
+    @strides.setter
+    def strides(self, value):
+        self._dirty_hash = True
+        np.ndarray.strides.__set__(self, value)
+
 
 class Cache:
     """
